@@ -70,6 +70,9 @@ func (u *Unit) evalConversion(st *State, e *ast.CallExpr, to types.Type) Term {
 	if a.T == nil && a.K != nil {
 		return u.materialize(a, to)
 	}
+	if isNilTerm(a) {
+		return u.zeroOf(to)
+	}
 	if from == nil {
 		return u.abstractExpr(st, e, "conversion")
 	}
@@ -340,6 +343,7 @@ func (u *Unit) evalAppend(st *State, e *ast.CallExpr) Term {
 		nb = nb2
 	}
 	u.heapWrite(st, h, fmt.Sprintf("(store %s %s %s)", cur, sRef(res), nb))
+	st.spare = append(st.spare, spareRegion{h, sRef(s.S), c.idxAdd(sOff(s.S), sLen(s.S))})
 	return Term{S: res, T: t}
 }
 
@@ -388,6 +392,7 @@ func (u *Unit) appendConst(st *State, s Term, src *Term, vals []string, elem typ
 		moved = fmt.Sprintf("(store %s %s %s)", moved, c.idxConst(n0+int64(i)), v)
 	}
 	u.heapWrite(st, h, fmt.Sprintf("(store %s %s %s)", cur, sRef(res), ite(fits, inPlace, moved)))
+	st.spare = append(st.spare, spareRegion{h, sRef(s.S), c.idxAdd(sOff(s.S), sLen(s.S))})
 	return Term{S: res, T: t}, true
 }
 
@@ -419,11 +424,27 @@ func (u *Unit) evalCopy(st *State, e *ast.CallExpr) Term {
 	cur := u.heapRead(st, h)
 	srcBlk := fmt.Sprintf("(select %s %s)", cur, sRef(s.S))
 	dstBlk := fmt.Sprintf("(select %s %s)", cur, sRef(d.S))
-	// constant small length: explicit stores
-	if k, ok := u.smallConstLen(st, d, s); ok {
+	// one side has a small constant length: explicit guarded stores (quantifier-free)
+	dl, okd := u.constLen(d)
+	sl, oks := u.constLen(s)
+	if (okd && dl <= 64) || (oks && sl <= 64) {
+		k := dl
+		if !okd || (oks && sl < dl) {
+			k = sl
+		}
 		nb := dstBlk
 		for i := int64(0); i < k; i++ {
-			nb = fmt.Sprintf("(store %s %s (select %s %s))", nb, c.idxAdd(sOff(d.S), c.idxConst(i)), srcBlk, c.idxAdd(sOff(s.S), c.idxConst(i)))
+			ii := c.idxConst(i)
+			at := c.idxAdd(sOff(d.S), ii)
+			srcV := fmt.Sprintf("(select %s %s)", srcBlk, c.idxAdd(sOff(s.S), ii))
+			cond := "true"
+			if !okd || dl <= i {
+				cond = and(cond, c.idxLt(ii, sLen(d.S)))
+			}
+			if !oks || sl <= i {
+				cond = and(cond, c.idxLt(ii, sLen(s.S)))
+			}
+			nb = fmt.Sprintf("(store %s %s %s)", nb, at, ite(cond, srcV, fmt.Sprintf("(select %s %s)", dstBlk, at)))
 		}
 		u.heapWrite(st, h, fmt.Sprintf("(store %s %s %s)", cur, sRef(d.S), nb))
 		return Term{S: nn, T: types.Typ[types.Int]}
@@ -800,6 +821,9 @@ func (u *Unit) evalReceiver(st *State, recvExpr ast.Expr, callee *types.Func) (T
 		r := u.allocCell(st, rt, val.S)
 		u.c.note("pointer-receiver call on %s: copy-in/copy-out (callee assumed not to retain the receiver)", u.exprText(recvExpr))
 		return Term{S: r, T: types.NewPointer(rt)}, func() {
+			if ct, _ := u.eng.contractFor(callee); ct != nil && !ct.ModifiesAll && !modifiesNames(ct, sig.Recv().Name()) {
+				return
+			}
 			nv := u.loadCell(st, rt, r)
 			u.assign(st, recvExpr, nv)
 		}
@@ -875,21 +899,23 @@ func (u *Unit) callPromoted(st *State, e *ast.CallExpr, callee *types.Func, se *
 		embT := cur.T
 		u.c.note("pointer-receiver call on embedded field of %s: copy-in/copy-out", u.exprText(se.X))
 		wb = func() {
+			if ct, _ := u.eng.contractFor(callee); ct != nil && !ct.ModifiesAll && !modifiesNames(ct, sig.Recv().Name()) {
+				return // the callee's frame leaves the receiver untouched
+			}
 			nv := u.loadCell(st, embT, r)
-			// write back along the path (only the common one-level cases)
-			if len(steps) == 1 {
-				s0 := steps[0]
+			// rebuild outwards until a pointer hop (or the base expression)
+			inner := nv.S
+			for d := len(steps) - 1; d >= 0; d-- {
+				s0 := steps[d]
 				if s0.viaPtr {
 					pt := s0.container.T.Underlying().(*types.Pointer)
 					old := u.loadCell(st, pt.Elem(), s0.container.S)
-					u.storeCell(st, pt.Elem(), s0.container.S, u.fieldSet(old, s0.idx, nv.S).S)
-				} else {
-					u.assign(st, se.X, u.fieldSet(s0.container, s0.idx, nv.S))
+					u.storeCell(st, pt.Elem(), s0.container.S, u.fieldSet(old, s0.idx, inner).S)
+					return
 				}
-			} else {
-				u.unsupportedf(e.Pos(), "write-back through multi-level embedding not modelled")
-				u.havocAllHeaps(st)
+				inner = u.fieldSet(s0.container, s0.idx, inner).S
 			}
+			u.assign(st, se.X, Term{S: inner, T: base.T})
 		}
 	case !wantPtr && havePtr:
 		u.checkNonNil(st, cur, se.X)
@@ -907,6 +933,22 @@ func (u *Unit) callPromoted(st *State, e *ast.CallExpr, callee *types.Func, se *
 		f()
 	}
 	return res
+}
+
+func modifiesNames(ct *FuncContract, name string) bool {
+	for _, m := range ct.Modifies {
+		found := false
+		ast.Inspect(m.Expr, func(n ast.Node) bool {
+			if id, ok := n.(*ast.Ident); ok && id.Name == name {
+				found = true
+			}
+			return true
+		})
+		if found {
+			return true
+		}
+	}
+	return false
 }
 
 func resultTerm(ts []Term) Term {
@@ -930,6 +972,16 @@ func (u *Unit) freshResults(st *State, sig *types.Signature, hint string) []Term
 // applyCallee: contract if there is one, library model if known, otherwise havoc.
 func (u *Unit) applyCallee(st *State, e *ast.CallExpr, callee *types.Func, ca callArgs) Term {
 	sig := callee.Type().(*types.Signature)
+	if ca.recv != nil && sig.Recv() != nil && ca.recv.T != nil {
+		switch ca.recv.T.Underlying().(type) {
+		case *types.Pointer:
+			u.checkNonNilTerm(st, *ca.recv, e, "receiver of "+u.exprTextShort(e.Fun))
+		case *types.Interface:
+			if !isEmptyInterface(ca.recv.T) && u.c.sortOf(ca.recv.T) == "Int" {
+				u.checkNonNilTerm(st, *ca.recv, e, "receiver of "+u.exprTextShort(e.Fun))
+			}
+		}
+	}
 	if callee.Pkg() != nil {
 		if ct, cset := u.eng.contractFor(callee); ct != nil {
 			return u.applyContract(st, e, callee, ct, cset, ca)
